@@ -45,6 +45,19 @@ CLAIMS["C12"] = {"engine": "ground-slg", "ref": "DESIGN.md section 0.8 and 6/C12
  "text": "Crash-point enumeration on the engine model: SLG.tla has a Panic action enabled wherever a database callback can run (the strand ensure_root_answer holds in a local is recorded as lost) followed by DropState; TLC explores, for every program of the propositional family, every root goal and every engine event index k, the history <<solve whose callback panics instead of event k, solve>> (thorough: <<solve, panic, solve>>) and checks ResultsCorrectUnlessLost. The real SLG engine is driven with a panic injected into the database callbacks that precede event k: the call must report the panic, later calls must return the specified answer in exactly the specified number of engine steps, and the executions (with Panic/DropState) are validated against SLG.tla. The recursive solver (cache on/off) gets the panic at every callback and its later answers are compared with the program's meaning. Re-derives the genuine SLG defect (strand lost while held) as KNOWN-FINDING; the recursive solver's defect was repaired (fix: 8fb68be).",
  "note": GROUND_NOTE + " One injected panic per history.", "technique": "TLA+ engine model with Panic action + TLC; crash-point replay on the real solvers (step-count lock-step); trace validation"}
 
+ENGINES["terms"] = ("/verif/spec/Terms.tla, TermsMC.tla, Unify.tla, CouldMatchMC.tla; /verif/lib/props_terms.py; /verif/harness/src/terms.rs, termops.rs",
+                    "TLA+ term language of chalk-ir (types, lifetimes, constants, binders) with occurrence flags, de Bruijn operators and their laws, declarative unification; TLC over bounded universes; every term / pair replayed on chalk-ir")
+TERMS_NOTE = "Trusted: TLC, the term builder/projection harness/src/terms.rs, the definitions in Terms.tla / Unify.tla. Bounds: two levels of nesting over every atom kind (see the universes in TermsMC.tla / CouldMatchMC.tla)."
+CLAIMS["C25"] = {"engine": "terms", "ref": "DESIGN.md section 0.8 and 6/C25", "level": "model_checking",
+ "text": "Terms.tla defines ShiftIn, ShiftOut and Subst over de Bruijn terms with fn-pointer and dyn binders (as the folders implement them, incl. that the type of a constant variable is not folded); TLC checks the laws ShiftRoundTrip, SubstIdentity, SubstOfShifted, SubstCommutesShift on all 2 540 terms of the universe x parameter lists. For every term the real shifted_in, shifted_out, Subst::apply and a no-op fold must return exactly what the specification's operators return (21 902 operations), which transfers the laws to the implementation on that universe.",
+ "note": TERMS_NOTE + " Types only (no goals / program clauses).", "technique": "TLA+ operators + laws checked by TLC; spec->impl replay of every operation"}
+CLAIMS["C26"] = {"engine": "terms", "ref": "DESIGN.md section 0.8 and 6/C26", "level": "model_checking",
+ "text": "Flags(t) is defined in Terms.tla by occurrence of subterms (independent of how compute_flags recurses); TLC enumerates 6 018 types (every constructor over every kind of type / lifetime / constant atom, constants with non-trivial types, all where-clause kinds in dyn bounds, two levels) and the real TyData::flags of each must equal the specification's set, STILL_FURTHER_SPECIALIZABLE excluded.",
+ "note": TERMS_NOTE, "technique": "TLA+ occurrence semantics, TLC exhaustive universe; spec->impl replay of every term"}
+CLAIMS["C18"] = {"engine": "terms", "ref": "DESIGN.md section 0.8 and 6/C18", "level": "model_checking",
+ "text": "Unify.tla is a declarative first-order unification (kinds of unknowns, occurs check, universes, repeated variables; lifetimes/aliases never fail) and CouldMatchAlg mirrors could_match.rs; TLC checks FilterSound on all 87 025 pairs of a 295-type universe and ListSound on 20 736 pairs of argument lists; the real could_match is evaluated on every pair and must accept every unifiable one.",
+ "note": TERMS_NOTE, "technique": "TLA+ declarative unification vs filter model, TLC exhaustive pairs; spec->impl replay of every pair"}
+
 # properties without a check: reason (default below)
 NA_DEFAULT = ("not claimed yet: the specification module and conformance harness planned for it in DESIGN.md section 6 are not built; "
               "no check is registered rather than registering one that is not sound")
